@@ -90,6 +90,31 @@ def report_sites(ctx, run, rule, cats, prop, what):
     """every open site of the categories is covered by a table entry of this property (count not exceeded) or is a violation"""
     tab = run.tabled()
     groups = run.open_groups(cats)
+    # a private helper extracted from a reviewed function inherits that function's entry: constructs of a non-public body all of
+    # whose callers (transitively) belong to one reviewed function are counted against that function's entry
+    callers = {}
+    for x, es in run.cg.edges.items():
+        if x in run.universe:
+            for (c, kind, bi) in es:
+                if kind in ("exact", "closure"):
+                    callers.setdefault(c, set()).add(x)
+
+    def owner(fn, site, seen=()):
+        if (fn, site, prop) in tab:
+            return fn
+        b = run.f.bodies.get(fn)
+        if b is None or fn in seen or len(seen) > 4 or (b.get("pub") and b["kind"] != "Closure"):
+            return None
+        cs = callers.get(fn, set())
+        owners = {owner(c, site, seen + (fn,)) for c in cs}
+        if len(owners) == 1 and None not in owners:
+            return owners.pop()
+        return None
+    merged = {}
+    for (fn, site), ss in groups.items():
+        o = owner(fn, site) or fn
+        merged.setdefault((o, site), []).extend(ss)
+    groups = merged
     auto = sum(1 for s in run.sites if s.status == "auto" and category(s) in cats)
     ctx.count("%s sites discharged automatically" % what, auto)
     n_tab = 0
